@@ -11,7 +11,7 @@ func ContextRefRename(from, to string) func(excellent.Expression) bool {
 	return func(exp excellent.Expression) bool {
 		changed := false
 		exp.Visit(func(e excellent.Expression) {
-			if ref, ok := e.(*excellent.ContextReference); ok && strings.EqualFold(ref.Name, from) {
+			if ref, ok := e.(*excellent.ContextReference); ok && strings.ToLower(ref.Name) == strings.ToLower(from) { // same comparison as the context itself uses
 				ref.Name = to
 				changed = true
 			}
